@@ -139,21 +139,30 @@ global_ghost("lasthit", "AReal AReal Int -> Int",
               "forall([(c, AReal), (y, AReal), k], implies(k >= 0, lasthit(c, y, k + 1) == "
               "ite(c[k] == 1 and y[k] == 1, k, lasthit(c, y, k))), pat=[lasthit(c, y, k + 1)])"])
 
+# bin01(c, k): the first k entries of c are 0 or 1 (explicit Skolem form, so that using the lemmas below needs no nested quantifier)
+global_ghost("bin01", "AReal Int -> Bool",
+             ["forall([(c, AReal), k, i], implies(bin01(c, k) and 0 <= i and i < k, c[i] == 0 or c[i] == 1), pat=[(bin01(c, k), c[i])])",
+              "forall([(c, AReal), k], bin01(c, k) or (0 <= wit01(c, k) and wit01(c, k) < k and "
+              "not (c[wit01(c, k)] == 0 or c[wit01(c, k)] == 1)), pat=[bin01(c, k)])"])
+global_ghost("wit01", "AReal Int -> Int", [])
+
 DOT_LEMMAS = [
+    Lemma("bin01_prefix", "bin01(c, k)", binders=[("c", "AReal"), ("k", "Int"), ("k2", "Int")],
+          hyps=["0 <= k", "k <= k2", "bin01(c, k2)"], pats=[("bin01(c, k)", "bin01(c, k2)")]),
     Lemma("dot_nonneg", "dot(c, y, k) >= 0", binders=[("c", "AReal"), ("y", "AReal"), ("k", "Int")],
-          hyps=["0 <= k", "forall(i, 0, k, (c[i] == 0 or c[i] == 1) and (y[i] == 0 or y[i] == 1))"], method=("induction", "k", "0"),
-          pats=["dot(c, y, k)"]),
+          hyps=["0 <= k", "bin01(c, k)", "bin01(y, k)"], method=("induction", "k", "0"), pats=["dot(c, y, k)"],
+          ),
     Lemma("dot_hit", "dot(c, y, k) >= 1", binders=[("c", "AReal"), ("y", "AReal"), ("i0", "Int"), ("k", "Int")],
-          hyps=["0 <= i0", "i0 < k", "forall(i, 0, k, (c[i] == 0 or c[i] == 1) and (y[i] == 0 or y[i] == 1))",
-                "c[i0] == 1 and y[i0] == 1"], method=("induction", "k", "i0 + 1"), pats=[("dot(c, y, k)", "c[i0]", "y[i0]")]),
+          hyps=["0 <= i0", "i0 < k", "bin01(c, k)", "bin01(y, k)", "c[i0] == 1 and y[i0] == 1"],
+          method=("induction", "k", "i0 + 1"), pats=[("dot(c, y, k)", "c[i0]", "y[i0]")]),
     Lemma("dot_two_hits", "dot(c, y, k) >= 2",
           binders=[("c", "AReal"), ("y", "AReal"), ("i0", "Int"), ("i1", "Int"), ("k", "Int")],
-          hyps=["0 <= i0", "i0 < i1", "i1 < k", "forall(i, 0, k, (c[i] == 0 or c[i] == 1) and (y[i] == 0 or y[i] == 1))",
+          hyps=["0 <= i0", "i0 < i1", "i1 < k", "bin01(c, k)", "bin01(y, k)",
                 "c[i0] == 1 and y[i0] == 1", "c[i1] == 1 and y[i1] == 1"], method=("induction", "k", "i1 + 1"),
           pats=[("dot(c, y, k)", "c[i0]", "y[i0]", "c[i1]", "y[i1]")]),
     Lemma("dot_some_hit", "0 <= lasthit(c, y, k) and lasthit(c, y, k) < k and c[lasthit(c, y, k)] == 1 and y[lasthit(c, y, k)] == 1",
           binders=[("c", "AReal"), ("y", "AReal"), ("k", "Int")],
-          hyps=["0 <= k", "forall(i, 0, k, (c[i] == 0 or c[i] == 1) and (y[i] == 0 or y[i] == 1))", "dot(c, y, k) >= 1"],
+          hyps=["0 <= k", "bin01(c, k)", "bin01(y, k)", "dot(c, y, k) >= 1"],
           method=("induction", "k", "0"), pats=["lasthit(c, y, k)"]),
 ]
 
@@ -236,6 +245,8 @@ def best_alignment_contract(name, soft):
                            ("before", ret, "assert forall(a, 0, nA(), forall(j, 0, cntAt(a), 0 <= psum(sizes, a) + j and "
                                            "psum(sizes, a) + j < shape(A)[0] and forall(k, 0, KK, A[psum(sizes, a) + j][k] == "
                                            "(1 if possible_unitary_alignments[k][a] == j else 0))))"),
+                           ("before", ret, "assert bin01(XV, KK) and forall(a, 0, nA(), forall(j, 0, cntAt(a), "
+                                           "bin01(A[psum(sizes, a) + j], KK)))"),
                            ("before", ret, "assert forall(a, 0, nA(), forall(j, 0, cntAt(a), "
                                            f"dot(A[psum(sizes, a) + j], XV, KK) {rel} 1))"),
                            ("before", ret, "assert forall(a, 0, nA(), forall(j, 0, cntAt(a), 0 <= hitk(a, j) and hitk(a, j) < KK and "
